@@ -35,6 +35,9 @@ func (txMap *txListBySenderMap) addTxReturnEvicted(tx *WrappedTransaction) (bool
 	listForSender := txMap.getOrAddListForSender(sender)
 
 	added, evictedHashes := listForSender.AddTx(tx)
+	if len(evictedHashes) > 0 {
+		txMap.removeSenderIfEmpty(listForSender)
+	}
 	return added, evictedHashes
 }
 
